@@ -3,6 +3,7 @@
 
 pub mod api;
 pub mod framebuf;
+pub mod hs;
 pub mod machine;
 pub mod slots;
 pub mod smoother;
@@ -18,6 +19,7 @@ pub fn make(name: &str) -> Option<Box<dyn Engine>> {
     match name {
         "api" => Some(Box::new(api::ApiEngine::default())),
         "framebuf" => Some(Box::new(framebuf::FrameBufEngine::default())),
+        "hs" => Some(Box::new(hs::HsEngine::default())),
         "machine" => Some(Box::new(machine::MachineEngine::default())),
         "parsecheck" => Some(Box::new(framebuf::ParseCheckEngine::default())),
         "slots" => Some(Box::new(slots::SlotsEngine::default())),
